@@ -13,12 +13,12 @@ use crate::verif_seam::tokio_net::TcpStream;
 #[cfg(not(repe_verif))]
 use std::collections::HashMap;
 use std::io::ErrorKind;
-use std::sync::atomic::{AtomicU64, Ordering};
+use std::sync::atomic::{AtomicBool, AtomicU64, Ordering};
 use std::sync::{Arc, Mutex as StdMutex};
 #[cfg(not(repe_verif))]
 use tokio::net::TcpStream;
 use tokio::sync::mpsc;
-use tokio::sync::{Mutex, oneshot};
+use tokio::sync::{Mutex, Notify, oneshot};
 use tokio::task::JoinError;
 use tokio::time::{Duration, timeout};
 use tokio_tungstenite::tungstenite::{self, Message as WsMessage};
@@ -60,6 +60,13 @@ struct WebSocketClientInner {
     /// `futures_channel` sender; that copy lives in `crate::notify_slot`,
     /// where the shared rules are unit-tested. Keep the two in step.
     notify_tx: StdMutex<Option<mpsc::UnboundedSender<Message>>>,
+    /// Set by the response loop once the connection has failed; nothing is
+    /// sent after that.
+    failed: AtomicBool,
+    /// Signalled together with `failed`, so that a send parked on a peer that
+    /// stopped reading gives up (and gives the writer lock back) instead of
+    /// waiting for that peer.
+    conn_failed: Notify,
 }
 
 enum PendingDispatch {
@@ -171,6 +178,8 @@ impl WebSocketClient {
             pending: StdMutex::new(HashMap::new()),
             next_id: AtomicU64::new(1),
             notify_tx: StdMutex::new(None),
+            failed: AtomicBool::new(false),
+            conn_failed: Notify::new(),
         });
 
         spawn_response_loop(reader, Arc::downgrade(&inner));
@@ -617,12 +626,28 @@ impl WebSocketClient {
         // connection, so without this the caller loses the socket and never
         // learns why.
         self.inner.limits.check_outbound(bytes.len())?;
-        let mut writer = self.inner.writer.lock().await;
-        writer
-            .send(WsMessage::Binary(bytes))
-            .await
-            .map_err(websocket_transport_error)?;
-        Ok(())
+        // Registered before the flag is read, so a failure signalled in between
+        // is not missed.
+        let conn_failed = self.inner.conn_failed.notified();
+        tokio::pin!(conn_failed);
+        conn_failed.as_mut().enable();
+        if self.inner.failed.load(Ordering::Acquire) {
+            return Err(websocket_closed_error());
+        }
+        // (On a failed connection the lock may be held by the close handshake,
+        // which a peer that stopped reading can stall indefinitely.)
+        let mut writer = tokio::select! {
+            biased;
+            _ = &mut conn_failed => return Err(websocket_closed_error()),
+            writer = self.inner.writer.lock() => writer,
+        };
+        tokio::select! {
+            biased;
+            // The response loop has failed the connection: whatever is still
+            // unsent never will be (the peer may have stopped reading).
+            _ = &mut conn_failed => Err(websocket_closed_error()),
+            sent = writer.send(WsMessage::Binary(bytes)) => sent.map_err(websocket_transport_error),
+        }
     }
 
     fn validate_response(expected_id: u64, resp: Message) -> Result<Message, RepeError> {
@@ -858,8 +883,13 @@ async fn fail_all_pending(inner: &std::sync::Weak<WebSocketClientInner>, err: Re
     // The subscriber should not wait on it to learn the connection is gone.
     take_notify_sender(&inner_ref);
 
-    let _ = close_writer(&inner_ref).await;
+    // Nothing is sent any more, and a send parked on a peer that stopped
+    // reading is woken so that it fails and releases the writer lock.
+    inner_ref.failed.store(true, Ordering::Release);
+    inner_ref.conn_failed.notify_waiters();
 
+    // The request waiters are failed ahead of `close_writer` too, for the
+    // reason given above for the notify stream. Later calls see `failed`.
     let waiters = {
         let mut pending = lock_pending_map(&inner_ref.pending);
         pending.drain().collect::<Vec<_>>()
@@ -868,6 +898,8 @@ async fn fail_all_pending(inner: &std::sync::Weak<WebSocketClientInner>, err: Re
     for (request_id, sender) in waiters {
         let _ = sender.send(Err(clone_fatal_error_for_waiter(&err, request_id)));
     }
+
+    let _ = close_writer(&inner_ref).await;
 }
 
 /// Empty the notify slot, dropping the sender *after* the mutex guard is
